@@ -369,8 +369,8 @@ theorem shootStep_copy (c : Cfg) (gun : Nat) (scn : String) (cd : CallDef) (w : 
       | some vals =>
         simp [w', stepVars, hpre, tmplsOf, svNext, zip_fst_comp2]
         all_goals (try (split <;> simp_all))
-        all_goals (try (by_cases hP : (m = "Auth" ∧ serverCode m (canonMsg fs vals) = 200) <;>
-          first | rw [if_pos hP, if_pos hP] | rw [if_neg hP, if_neg hP]))
+        all_goals (try (by_cases hA : cd.name = "auth" <;> simp only [hA, if_true, if_false]))
+        all_goals (try (split <;> simp_all))
   · have hpre' : cd.pre = false := by simpa using hpre
     simp only [hpre', Bool.false_eq_true, if_false] at hsv ⊢
     simp only [hcells, Option.getD_some]
@@ -388,8 +388,8 @@ theorem shootStep_copy (c : Cfg) (gun : Nat) (scn : String) (cd : CallDef) (w : 
       | some vals =>
         simp [w', stepVars, hpre', tmplsOf, svNext, zip_fst_comp2]
         all_goals (try (split <;> simp_all))
-        all_goals (try (by_cases hP : (m = "Auth" ∧ serverCode m (canonMsg fs vals) = 200) <;>
-          first | rw [if_pos hP, if_pos hP] | rw [if_neg hP, if_neg hP]))
+        all_goals (try (by_cases hA : cd.name = "auth" <;> simp only [hA, if_true, if_false]))
+        all_goals (try (split <;> simp_all))
 
 theorem mapM_find_mem (calls : List CallDef) : ∀ (reqs : List String) (cds : List CallDef),
     reqs.mapM (fun r => calls.find? (·.name == r)) = some cds → ∀ cd ∈ cds, cd ∈ calls
@@ -501,8 +501,8 @@ theorem specStep_call (c : Cfg) (scn : String) (cd : CallDef) (vars : Vars Char)
     (h : lookupMethod cd.call = some (m, fs)) (h2 : decodeFields fs (renderedPayload cd vars) = some vals) :
     (specStep c scn cd vars).1 =
         { calls := [callText m (canonMsg fs vals) (mdText (renderedMd cd vars)) c.tmo],
-          samples := [sampleText (scn ++ ".t" ++ cd.name) (serverCode m (canonMsg fs vals))] } ∧
-      (specStep c scn cd vars).2.1 = true := by
+          samples := [sampleText (scn ++ ".t" ++ cd.name) (serverCode m (canonMsg fs vals) (renderedMd cd vars))] } ∧
+      (specStep c scn cd vars).2.1 = !(assertFails cd (serverCode m (canonMsg fs vals) (renderedMd cd vars))) := by
   simp only [renderedPayload] at h2
   simp [specStep, h, h2, renderedMd, hb]
 
